@@ -501,6 +501,10 @@ class _matrix(object):
         # A[:,2:6] = 2.5
         #  submatrix to matrix (the value matrix should be the same size as the slice size)
         # A[3,:] = B   where A is n x m  and B is n x 1
+        # the cached LU decomposition is invalid as soon as any entry may
+        # change (also when the assignment is interrupted half-way)
+        if self._LU:
+            self._LU = None
         # Convert vector to matrix indexing
         if isinstance(key, int) or isinstance(key,slice):
             # only sufficent for vectors
@@ -692,6 +696,7 @@ class _matrix(object):
         return self.__rows
 
     def __setrows(self, value):
+        self._LU = None
         for key in self.__data.copy():
             if key[0] >= value:
                 del self.__data[key]
@@ -703,6 +708,7 @@ class _matrix(object):
         return self.__cols
 
     def __setcols(self, value):
+        self._LU = None
         for key in self.__data.copy():
             if key[1] >= value:
                 del self.__data[key]
